@@ -22,6 +22,28 @@ pub struct Case {
     pub q: DpQuery,
     pub dp: DpSpec,
     pub unit_pick: u16,
+    /// two-level aggregation templates (template, inner aggregate, outer aggregate) instead of `q`
+    #[serde(default)]
+    pub nested: Option<(u8, u8, u8)>,
+}
+
+pub fn nested_sql(t: u8, inner: u8, outer: u8) -> String {
+    let agg = |i: u8, c: &str| match i % 4 {
+        0 => format!("SUM({c})"),
+        1 => format!("AVG({c})"),
+        2 => format!("COUNT({c})"),
+        _ => "COUNT(*)".to_string(),
+    };
+    match t % 5 {
+        // inner grouping key not projected: one unit spreads over several inner groups
+        0 => format!("SELECT {} AS r0 FROM (SELECT {} AS m FROM orders GROUP BY kind) AS q", agg(outer, "m"), agg(inner, "x")),
+        1 => format!("SELECT {} AS r0 FROM (SELECT {} AS m FROM orders GROUP BY pk) AS q", agg(outer, "m"), agg(inner, "x")),
+        // inner key projected and used as the outer (public) key
+        2 => format!("SELECT k, {} AS r0 FROM (SELECT kind AS k, uid AS u, {} AS m FROM orders GROUP BY kind, uid) AS q GROUP BY k", agg(outer, "m"), agg(inner, "x")),
+        // aggregation over a join, then re-aggregated
+        3 => format!("SELECT {} AS r0 FROM (SELECT {} AS m FROM orders JOIN users ON orders.uid = users.id GROUP BY users.g) AS q", agg(outer, "m"), agg(inner, "x")),
+        _ => format!("SELECT {} AS r0 FROM (SELECT {} AS m FROM items JOIN orders ON items.oid = orders.oid GROUP BY orders.kind) AS q", agg(outer, "m"), agg(inner, "y")),
+    }
 }
 
 pub fn dp_small_strategy() -> BoxedStrategy<DpSpec> {
@@ -43,13 +65,14 @@ pub fn strategy() -> BoxedStrategy<Case> {
         query_strategy(vec![Group::None, Group::Public, Group::Public, Group::Private, Group::Both], true, true),
         dp_small_strategy(),
         any::<u16>(),
+        proptest::option::weighted(0.15, (0u8..5, 0u8..4, 0u8..4)),
     )
-        .prop_map(|(mut schema, q, dp, unit_pick)| {
+        .prop_map(|(mut schema, q, dp, unit_pick, nested)| {
             // with key release in the plan the random source is a constant (see check): row-privacy ids would coincide
             if schema.pu_variant % 4 == 2 && matches!(q.group, Group::Private | Group::Both) {
                 schema.pu_variant = 0;
             }
-            Case { schema, q, dp, unit_pick }
+            Case { schema, q, dp, unit_pick, nested }
         })
         .boxed()
 }
@@ -113,7 +136,10 @@ pub fn remove_unit(schema: &DpSchema, rows: &Vec<Vec<Vec<Cell>>>, pick: u16) -> 
 pub fn check(case: &Case, st: &mut Stats) -> Vec<Fail> {
     let mut fails = vec![];
     let db = case.schema.db();
-    let r = case.q.render(&case.schema);
+    let mut r = case.q.render(&case.schema);
+    if let Some((t, i, o)) = case.nested {
+        r.sql = nested_sql(t, i, o);
+    }
     st.eval();
     let rel = match compile(&r.sql, &db) {
         Compiled::Ok(rel) => rel,
@@ -155,8 +181,11 @@ pub fn check(case: &Case, st: &mut Stats) -> Vec<Fail> {
     // key release draws: a constant source (1e-300: +37 sigma, every key released on both databases; ties in the
     // contribution ranking resolve identically on both). Otherwise distinct draws so that row-privacy ids differ.
     let rng = if an.thresholds.is_empty() { RngMode::NearOneDistinct } else { RngMode::AlwaysRelease };
-    let from_tag = format!("{:?}", case.q.from).to_lowercase();
-    let group_tag = format!("{:?}", case.q.group).to_lowercase();
+    let from_tag = match case.nested {
+        Some((t, _, _)) => format!("nested{}", t % 5),
+        None => format!("{:?}", case.q.from).to_lowercase(),
+    };
+    let group_tag = if case.nested.is_some() { "nested".to_string() } else { format!("{:?}", case.q.group).to_lowercase() };
     for nm in aggs {
         let Ok(sql) = render_relation(nm.input) else {
             st.class("render_panic");
